@@ -45,7 +45,16 @@ KROME_HI = [("<{}", 1), (".LE.{}", 1), ("{}", 1), (".LT.{}", 1)]
 
 
 def _krome_num(draw, x):
-    style = draw(st.sampled_from(["plain", "d", "e"]))
+    style = draw(st.sampled_from(["plain", "d", "e", "dot"]))
+    if style == "dot" and x == x and x > 0:
+        # Fortran style with a leading decimal point: 5500 -> .55d4
+        from decimal import Decimal
+
+        dec = Decimal(repr(float(x)))
+        sign, digits, ex = dec.as_tuple()
+        ds = "".join(map(str, digits)).rstrip("0") or "0"
+        e10 = len(digits) + ex
+        return f".{ds}{draw(st.sampled_from(['d', 'e']))}{e10}"
     if style == "plain" or x != x:
         return repr(float(x)) if x != int(x) else str(int(x))
     m = f"{x:.6e}"
@@ -183,18 +192,27 @@ def check_case(case, tier):
             return CaseResult(failures, True, labels, sample={"fmt": fmt})
         off = 1 if fmt == "uclchem" else 0
         ts = probes(lrs, case["extra_T"])
+        # every function of every back-end that evaluates rates starts from a zeroed array on *each* call
+        try:
+            allp = N.render(net, d / "all")
+        except Exception:
+            allp = {}
+        for method, proj in allp.items():
+            fns = [("naunet_ode", r"Fex::operator\(\)"), ("naunet_ode", r"Jac::operator\(\)")] if proj.solver == "odeint" else \
+                  [("naunet_fex", "FexKernel"), ("naunet_jac", "JacKernel")] if method == "cusparse" else [("naunet_fex", "Fex"), ("naunet_jac", "Jac")]
+            for stem, fn in fns:
+                _, stmts = proj.function(stem, fn)
+                kd = [dcl for dcl in walk_decls(stmts) if dcl[2] == "k"]
+                ok = bool(kd) and kd[0][3] is not None and kd[0][4] is not None and kd[0][4][0] == "initlist" and [x[1] for x in kd[0][4][1]] in (["0.0"], ["0"], ["0."])
+                if not ok:
+                    failures.append(("window/k-not-zero-initialised", f"{method}: {fn} does not declare k[NREACTIONS] = {{0.0}}"))
+                elif "static" in kd[0][1].split():
+                    failures.append(("window/k-zeroed-only-once", f"{method}: {fn} declares k[] static: it is zeroed once, so a reaction outside its window keeps the coefficient of an earlier call"))
         for method, proj in projs.items():
             if proj.nreac != len(lrs) + off:
                 failures.append(("window/nreactions", f"{method}: NREACTIONS={proj.nreac} for {len(lrs) + off} lines"))
                 continue
-            # rate arrays are declared zero-initialised
-            if proj.solver != "odeint":
-                _, stmts = proj.function("naunet_fex", "Fex")
-            else:
-                _, stmts = proj.function("naunet_ode", r"Fex::operator\(\)")
-            kd = [dcl for dcl in walk_decls(stmts) if dcl[2] == "k"]
-            if not kd or kd[0][4] is None or kd[0][4][0] != "initlist" or [x[1] for x in kd[0][4][1]] not in (["0.0"], ["0"], ["0."]):
-                failures.append(("window/k-not-zero-initialised", f"{method}: declaration of k[] is not '= {{0.0}}'"))
+            pass
             for T in ts:
                 P = {"Tgas": T, "Av": case["Av"], "zeta": 1.3e-17, "zeta_cr": 1.3e-17, "zeta_xr": 0.0, "omega": 0.5, "G0": 1.0, "nH": 1e4, "Tdust": 10.0}
                 k, _ = R.eval_rates(proj, P)
